@@ -90,14 +90,16 @@ type Windows struct {
 	MaxMischance    uint64 `json:"max_mischance"`             // missed blocks before a validator is inactivated
 	ProposalEndTime uint64 `json:"minimum_proposal_end_time_s"`
 	EnactmentTime   uint64 `json:"proposal_enactment_time_s"`
-	LongHistory     bool   `json:"long_history"`              // one block 700000 s long: the unstaking period (>= 604800 s) elapses before the export
+	LongHistory     bool   `json:"long_history"`              // one long block: the unstaking period (>= 604800 s) elapses before the export
+	LongGap         int64  `json:"long_gap_s"`                // length of that block: 700000 s; 2700000 s (31 days: past a short inflation period only); 31190400 s (361 days: past the 360-day year-start threshold, not past the default 365.25-day inflation period)
+	InflationPeriod uint64 `json:"inflation_period_s"`        // default 31557600; 2629800 = the minimum
 }
 
-func DefaultWindows() Windows { return Windows{1000, 86400, 86400, 17280, 110, 300, 300, false} }
+func DefaultWindows() Windows { return Windows{1000, 86400, 86400, 17280, 110, 300, 300, false, 700000, 31557600} }
 
 func AllFeatures() Features {
 	return Features{true, true, true, true, true, true, true, true, true, false, true, true, true, true, true, true, true, true, true, true, true, true, true, true, true, true, true, true, false, true,
-		2, 2, 2, 4, false, Windows{3, 86400, 86400, 2, 110, 300, 300, false}}
+		2, 2, 2, 4, false, Windows{3, 86400, 86400, 2, 110, 300, 300, false, 700000, 31557600}}
 }
 
 func RandomFeatures(r *hx.Rng) Features {
@@ -125,7 +127,13 @@ func RandomFeatures(r *hx.Rng) Features {
 	if r.Chance(30) {
 		f.W.ProposalEndTime, f.W.EnactmentTime = 120, 60
 	}
-	f.W.LongHistory = r.Chance(20)
+	f.W.LongHistory = r.Chance(30)
+	switch r.Intn(3) {
+	case 1: // the periodic snapshot rolls over alone
+		f.W.LongGap, f.W.InflationPeriod = 2700000, 2629800
+	case 2: // the year-start snapshot rolls over alone
+		f.W.LongGap = 31190400
+	}
 	return f
 }
 
@@ -434,7 +442,7 @@ func Populate(c *abci.Chain, f Features, r *hx.Rng) *World {
 			w.tx("undelegate a2 (early)", 2, &mstypes.MsgUndelegate{DelegatorAddress: A(2).String(), ValidatorAddress: c.Validators[0].ValAddr.String(), Amounts: sdk.NewCoins(coin("ukex", 700))})
 			w.end()
 		}
-		w.emptyBlock(700000)
+		w.emptyBlock(f.W.LongGap)
 	}
 	// voting period (default 10 min) passes, enactment follows
 	if f.ProposalDone || f.UpgradeExecuted {
@@ -618,6 +626,7 @@ func NewOriginal(seed uint64, f Features) *abci.Chain {
 			if f.W.MaxMischance < 10 {
 				g.NetworkProperties.MischanceConfidence = 1
 			}
+			g.NetworkProperties.InflationPeriod = f.W.InflationPeriod
 			g.NetworkProperties.MinimumProposalEndTime = f.W.ProposalEndTime
 			g.NetworkProperties.ProposalEnactmentTime = f.W.EnactmentTime
 		},
